@@ -21,13 +21,14 @@ def main():
     only = sys.argv[sys.argv.index('--only') + 1] if '--only' in sys.argv else None
     note = sys.argv[sys.argv.index('--note') + 1] if '--note' in sys.argv else ''
     seeds = sys.argv[sys.argv.index('--seeds') + 1].split(',') if '--seeds' in sys.argv else ['0', '1', '2']
+    tier = sys.argv[sys.argv.index('--tier') + 1] if '--tier' in sys.argv else 'quick'
     found = {}
     counts = {}
     for seed in seeds:
         for f in glob.glob(os.path.join(VERIF, 'replays', prop, '*.json')):
             os.remove(f)
         env = dict(os.environ, VERIF_SEED=seed)
-        r = subprocess.run(['./check', prop, 'quick'], cwd=VERIF, env=env, capture_output=True, text=True)
+        r = subprocess.run(['./check', prop, tier], cwd=VERIF, env=env, capture_output=True, text=True)
         for line in r.stdout.splitlines():
             if line.startswith('VIOLATION') or line.startswith('  (also)'):
                 key = line.split('key=')[1].split(' count=')[0]
